@@ -726,12 +726,7 @@ func ruleUniq(c *Ctx, rule string) {
 	c.Check(dup, rule, name+": duplicate rejected", p.Pos(fn.Pos()), "on the edge where the value is already indexed a UniqueIndexDuplicateError is recorded", "no UniqueIndexDuplicateError is recorded when the value is already present")
 	// empty new value on a non-nullable index is an error
 	pol := findEmptyPolicy(c, "uniqueIndex")
-	nonNull := false
-	for _, call := range callsIn(fn) {
-		if invokeNamed(call, "SetError") && fi.HoldsWhere(call.Block(), pol.refuses) {
-			nonNull = true
-		}
-	}
+	nonNull := errorRecordedWhere(fn, fi, nil, pol.refuses)
 	c.Check(nonNull, rule, name+": empty value on non-nullable index", p.Pos(fn.Pos()), "an empty value records an error when the index is not nullable", "an empty value is accepted by a non-nullable unique index")
 }
 
@@ -1266,42 +1261,79 @@ func constantInt(k *ssa.Const) (int64, bool) {
 
 func ruleFkExists(c *Ctx, rule string) {
 	p := c.P
-	// fkIndex.getIndexBucket: ErrBucket(NotFound) on the nil edge of GetEntityBucket
-	gb := p.SSAFunc(p.Method("boltz", "fkIndex", "getIndexBucket"))
-	c.Analysed(FnName(gb))
-	fi := ComputeFacts(gb)
+	// the accessor that hands out the back-reference bucket of a target: ErrBucket(NotFound) on the nil edge of
+	// GetEntityBucket.  On the pinned tree that is fkIndex.getIndexBucket; where it has been merged with its
+	// read-only sibling (and is expanded, with the constant deciding its branches, where it is called) the same
+	// is read off the value the back-reference is written into.
 	errBucket := p.Func("boltz", "ErrBucket")
-	okNil := false
 	notFound := p.Func("boltz", "NewNotFoundError")
-	for _, r := range returnsOf(gb) {
-		// the failure is handed back as an error-carrying bucket, or as an error result next to a nil bucket
-		fails := false
-		if call, ok := r.Results[0].(*ssa.Call); ok && isCallTo(call, errBucket) {
-			fails = true
-		}
-		if ei := errorResultIndex(gb.Signature); ei >= 0 && ei < len(r.Results) {
-			v := r.Results[ei]
-			if mi, isMI := v.(*ssa.MakeInterface); isMI {
-				v = mi.X
-			}
-			if call, ok := v.(*ssa.Call); ok && isCallTo(call, notFound) {
+	var gbObj *types.Func
+	if m := p.MethodOpt("boltz", "fkIndex", "getIndexBucket"); m != nil {
+		gbObj = m
+		gb := p.SSAFunc(m)
+		c.Analysed(FnName(gb))
+		fi := ComputeFacts(gb)
+		okNil := false
+		for _, r := range returnsOf(gb) {
+			// the failure is handed back as an error-carrying bucket, or as an error result next to a nil bucket
+			fails := false
+			if call, ok := r.Results[0].(*ssa.Call); ok && isCallTo(call, errBucket) {
 				fails = true
 			}
-		}
-		if fails {
-			if fi.HoldsWhere(r.Block(), func(f Fact) bool {
-				k, isCall := f.V.(*ssa.Call)
-				return f.Kind == "nonnil" && !f.Pol && isCall && invokeNamed(k, "GetEntityBucket")
-			}) {
-				okNil = true
+			if ei := errorResultIndex(gb.Signature); ei >= 0 && ei < len(r.Results) {
+				v := r.Results[ei]
+				if mi, isMI := v.(*ssa.MakeInterface); isMI {
+					v = mi.X
+				}
+				if call, ok := v.(*ssa.Call); ok && isCallTo(call, notFound) {
+					fails = true
+				}
+			}
+			if fails {
+				if fi.HoldsWhere(r.Block(), func(f Fact) bool {
+					k, isCall := f.V.(*ssa.Call)
+					return f.Kind == "nonnil" && !f.Pol && isCall && invokeNamed(k, "GetEntityBucket")
+				}) {
+					okNil = true
+				}
 			}
 		}
+		c.Check(okNil, rule, FnName(gb), p.Pos(gb.Pos()), "a missing target entity yields an error bucket (not found)", "a back-reference bucket can be created for a target entity that does not exist")
 	}
-	c.Check(okNil, rule, FnName(gb), p.Pos(gb.Pos()), "a missing target entity yields an error bucket (not found)", "a back-reference bucket can be created for a target entity that does not exist")
-	// every SetListEntry in fkIndex goes through getIndexBucket
+	// every SetListEntry in fkIndex goes through that accessor
 	setEntry := tbMethod(c, "SetListEntry")
 	for _, m := range []string{"ProcessAfterUpdate"} {
 		fn := p.SSAFunc(p.Method("boltz", "fkIndex", m))
+		fiF := factsOf(fn)
+		// inline form: every value the bucket can be is an error bucket made where the target's entity bucket was
+		// found missing, or a path created inside an entity bucket that was found present
+		inlineOK := func(recv ssa.Value) bool {
+			sawMissing := false
+			for _, leaf := range phiLeaves(recv) {
+				call, isCall := leaf.(*ssa.Call)
+				if !isCall {
+					return false
+				}
+				if isCallTo(call, errBucket) {
+					if fiF.HoldsWhere(call.Block(), func(f Fact) bool {
+						k, isK := f.V.(*ssa.Call)
+						return f.Kind == "nonnil" && !f.Pol && isK && invokeNamed(k, "GetEntityBucket")
+					}) {
+						sawMissing = true
+					}
+					continue
+				}
+				cal, _ := calleeOf(call.Common())
+				if cal == nil || (cal.Name() != "GetOrCreatePath" && cal.Name() != "GetOrCreateBucket") || len(call.Call.Args) == 0 {
+					return false
+				}
+				src, isSrc := call.Call.Args[0].(*ssa.Call)
+				if !isSrc || !invokeNamed(src, "GetEntityBucket") || !fiF.Holds(call.Block(), Fact{"nonnil", src, true}) {
+					return false
+				}
+			}
+			return sawMissing
+		}
 		ok, n := true, 0
 		for _, call := range callsIn(fn) {
 			if isCallTo(call, setEntry) {
@@ -1311,7 +1343,10 @@ func ruleFkExists(c *Ctx, rule string) {
 					recv = ex.Tuple
 				}
 				src, isCall := recv.(*ssa.Call)
-				if !isCall || !isCallTo(src, gb.Object().(*types.Func)) {
+				if isCall && gbObj != nil && isCallTo(src, gbObj) {
+					continue
+				}
+				if !inlineOK(recv) {
 					ok = false
 				}
 			}
@@ -1322,23 +1357,13 @@ func ruleFkExists(c *Ctx, rule string) {
 	fc := p.SSAFunc(p.Method("boltz", "fkConstraint", "ProcessAfterUpdate"))
 	c.Analysed(FnName(fc))
 	fi2 := ComputeFacts(fc)
-	okPresent := false
-	for _, call := range callsIn(fc) {
-		if invokeNamed(call, "SetError") && fi2.HoldsWhere(call.Block(), func(f Fact) bool {
-			k, isCall := f.V.(*ssa.Call)
-			return f.Kind == "true" && !f.Pol && isCall && invokeNamed(k, "IsEntityPresent")
-		}) {
-			okPresent = true
-		}
-	}
+	okPresent := errorRecordedWhere(fc, fi2, nil, func(f Fact) bool {
+		k, isCall := f.V.(*ssa.Call)
+		return f.Kind == "true" && !f.Pol && isCall && invokeNamed(k, "IsEntityPresent")
+	})
 	c.Check(okPresent, rule, FnName(fc), p.Pos(fc.Pos()), "a reference to an absent target records a not-found error", "a reference to a missing target is accepted")
 	polC := findEmptyPolicy(c, "fkConstraint")
-	okNull := false
-	for _, call := range callsIn(fc) {
-		if invokeNamed(call, "SetError") && fi2.HoldsWhere(call.Block(), polC.refuses) {
-			okNull = true
-		}
-	}
+	okNull := errorRecordedWhere(fc, fi2, nil, polC.refuses)
 	c.Check(okNull, rule, FnName(fc)+": null on non-nullable", p.Pos(fc.Pos()), "a null reference records an error when the constraint is not nullable", "a null reference is accepted by a non-nullable fk constraint")
 }
 
@@ -1349,15 +1374,24 @@ func ruleFkDelete(c *Ctx, rule string) {
 	c.Analysed(FnName(fd))
 	fi := ComputeFacts(fd)
 	refErr := p.Func("boltz", "NewReferenceByIdError")
-	ok := false
+	isRefErr := func(v ssa.Value) bool {
+		src, isCall := v.(*ssa.Call)
+		return isCall && isCallTo(src, refErr)
+	}
+	ok := errorRecordedWhere(fd, fi, isRefErr, func(f Fact) bool {
+		k, isCall := f.V.(*ssa.Call)
+		return f.Kind == "true" && f.Pol && isCall && invokeNamed(k, "IsValid")
+	})
+	// the reference-exists errors that reach the holder (directly, or through a variable handed to SetError later)
+	recorded := map[ssa.Value]bool{}
 	for _, call := range callsIn(fd) {
-		if invokeNamed(call, "SetError") {
-			if src, isCall := call.Common().Args[len(call.Common().Args)-1].(*ssa.Call); isCall && isCallTo(src, refErr) {
-				if fi.HoldsWhere(call.Block(), func(f Fact) bool {
-					k, isCall := f.V.(*ssa.Call)
-					return f.Kind == "true" && f.Pol && isCall && invokeNamed(k, "IsValid")
-				}) {
-					ok = true
+		if invokeNamed(call, "SetError") && len(call.Common().Args) > 0 {
+			for _, leaf := range phiLeaves(call.Common().Args[len(call.Common().Args)-1]) {
+				if mi, isMI := leaf.(*ssa.MakeInterface); isMI {
+					leaf = mi.X
+				}
+				if isRefErr(leaf) {
+					recorded[leaf] = true
 				}
 			}
 		}
@@ -1367,6 +1401,10 @@ func ruleFkDelete(c *Ctx, rule string) {
 	// may talk the constraint out of it afterwards — a "stale reference" filter, a second look at another store)
 	if ok {
 		isRefusal := func(in ssa.Instruction) bool {
+			// the refusal is made here (and recorded here or, in single-exit form, at the end)
+			if v, isV := in.(ssa.Value); isV && recorded[v] {
+				return true
+			}
 			call, isCall := in.(ssa.CallInstruction)
 			if !isCall || !invokeNamed(call, "SetError") {
 				return false
@@ -1795,6 +1833,20 @@ func ruleLinkCleanup(c *Ctx, rule string) {
 				ok = innermostLoop(loopsOf(cl), call.Block()) != nil
 			}
 		}
+		if !ok {
+			// the bound EntityDeleted of every element gathered into a local list, then called in one loop over it
+			for _, g := range gatheredFrom(cl, f) {
+				if g.method != "EntityDeleted" {
+					continue
+				}
+				for _, call := range callsIn(cl) {
+					cc := call.Common()
+					if !cc.IsInvoke() && cc.StaticCallee() == nil && fromGathered(cc.Value, g, 0) && innermostLoop(loopsOf(cl), call.Block()) != nil {
+						ok = true
+					}
+				}
+			}
+		}
 		c.Check(ok, rule, FnName(cl)+": "+fld, p.Pos(cl.Pos()), "EntityDeleted is called for every collection in store."+fld, "store."+fld+" is not cleaned up when an entity is deleted")
 	}
 	cg := p.CallGraph()
@@ -2152,25 +2204,40 @@ func ruleUnchangedShortcut(c *Ctx, rule string, typeNames []string) {
 		name := FnName(fn)
 		c.Analysed(name)
 		fi := ComputeFacts(fn)
+		// stated on branch edges, so that it reads the same whether the shortcut is an early return or a flag
+		// (needsCheck := ctx.IsCreate || !bytes.Equal(old, new)): wherever a branch is taken BECAUSE the value is
+		// unchanged, it is also known that this is not a create
 		ok, n := true, 0
-		for _, r := range returnsOf(fn) {
-			eq := fi.HoldsWhere(r.Block(), func(f Fact) bool {
-				k, isCall := f.V.(*ssa.Call)
-				if f.Kind != "true" || !f.Pol || !isCall {
-					return false
-				}
-				cal, _ := calleeOf(k.Common())
-				return cal != nil && cal.Name() == "Equal" && cal.Pkg() != nil && cal.Pkg().Path() == "bytes"
-			})
-			if !eq {
-				continue
+		isEqual := func(f Fact) bool {
+			k, isCall := f.V.(*ssa.Call)
+			if f.Kind != "true" || !f.Pol || !isCall {
+				return false
 			}
-			n++
-			if !fi.HoldsWhere(r.Block(), func(f Fact) bool {
-				ff, _ := loadedField(f.V)
-				return f.Kind == "true" && !f.Pol && sameVar(ff, isCreate)
-			}) {
-				ok = false
+			cal, _ := calleeOf(k.Common())
+			return cal != nil && cal.Name() == "Equal" && cal.Pkg() != nil && cal.Pkg().Path() == "bytes"
+		}
+		notCreate := func(f Fact) bool {
+			ff, _ := loadedField(f.V)
+			return f.Kind == "true" && !f.Pol && sameVar(ff, isCreate)
+		}
+		for _, b := range fn.Blocks {
+			for _, to := range b.Succs {
+				eq, nc := false, fi.HoldsWhere(b, notCreate)
+				for f := range fi.edgeFacts(b, to) {
+					if isEqual(f) {
+						eq = true
+					}
+					if notCreate(f) {
+						nc = true
+					}
+				}
+				if !eq {
+					continue
+				}
+				n++
+				if !nc {
+					ok = false
+				}
 			}
 		}
 		c.Check(ok && n > 0, rule, name, p.Pos(fn.Pos()), "the unchanged-value shortcut is taken only when this is not a create", "the unchanged-value shortcut can be taken on create (old value is empty then): a null/empty value skips the not-null and existence checks")
@@ -2711,4 +2778,44 @@ func findEmptyPolicy(c *Ctx, typ string) *emptyPolicy {
 	}
 	emptyPolicyCache[typ] = ep
 	return ep
+}
+
+// errorRecordedWhere: an error made where `where` holds reaches the error holder: a SetError call that stands
+// there, or one further on that is handed the variable the error was assigned to there (the single-exit form:
+// `violation = NewNotFoundError(…)` in the branch, `if violation != nil { holder.SetError(violation) }` at the end).
+// isErr restricts the error values that count (nil: any value that is not the nil constant).
+func errorRecordedWhere(fn *ssa.Function, fi *FactInfo, isErr func(ssa.Value) bool, where func(Fact) bool) bool {
+	strip := func(v ssa.Value) ssa.Value {
+		if mi, isMI := v.(*ssa.MakeInterface); isMI {
+			return mi.X
+		}
+		return v
+	}
+	for _, call := range callsIn(fn) {
+		if !invokeNamed(call, "SetError") || len(call.Common().Args) == 0 {
+			continue
+		}
+		arg := call.Common().Args[len(call.Common().Args)-1]
+		for _, leaf := range phiLeaves(arg) {
+			if isNilConst(leaf) {
+				continue
+			}
+			if isErr != nil && !isErr(strip(leaf)) && !isErr(leaf) {
+				continue
+			}
+			at := call.Block()
+			if leaf != arg {
+				// assigned elsewhere: what holds where the value was made
+				li, isInstr := leaf.(ssa.Instruction)
+				if !isInstr || li.Block() == nil {
+					continue
+				}
+				at = li.Block()
+			}
+			if fi.HoldsWhere(at, where) {
+				return true
+			}
+		}
+	}
+	return false
 }
